@@ -339,8 +339,20 @@ def rule_cli(ctx: Ctx) -> RuleReport:
             rep.fail(Finding("C01-CLI", CLI, "main", short(arg), "the diagnostic can span several lines", line=h.lineno))
     # uses of args.<x> outside the unknown-arguments check must be inside the try
     inside = {id(n) for st in work.body for n in ast.walk(st)}
+    # the argparse namespace and the list of unknown arguments: targets of `<ns>, <unknown> = parser.parse_known_args(..)` / `<ns> = parser.parse_args(..)`
+    ns_names, unk_names = set(), set()
     for n in walk_own(fn):
-        if isinstance(n, ast.Attribute) and isinstance(n.value, ast.Name) and n.value.id == "args":
+        if isinstance(n, ast.Assign) and isinstance(n.value, ast.Call) and isinstance(n.value.func, ast.Attribute) and n.value.func.attr in ("parse_known_args", "parse_args"):
+            t = n.targets[0]
+            if isinstance(t, ast.Tuple) and len(t.elts) == 2 and all(isinstance(e, ast.Name) for e in t.elts):
+                ns_names.add(t.elts[0].id)
+                unk_names.add(t.elts[1].id)
+            elif isinstance(t, ast.Name):
+                ns_names.add(t.id)
+    if not ns_names:
+        raise AnalysisError("C01-CLI: main no longer parses its arguments with argparse (parse_args / parse_known_args)")
+    for n in walk_own(fn):
+        if isinstance(n, ast.Attribute) and isinstance(n.value, ast.Name) and n.value.id in ns_names:
             if id(n) in inside:
                 rep.ok()
             else:
@@ -402,7 +414,7 @@ def rule_cli(ctx: Ctx) -> RuleReport:
                 rep.fail(Finding("C01-CLI", CLI, "main", "return 0", "exit status 0 is reachable without any result having been written", line=r.lineno))
     # unknown-arguments path
     for st in fn.body:
-        if isinstance(st, ast.If) and norm(st.test) == "unknown":
+        if isinstance(st, ast.If) and isinstance(st.test, ast.Name) and st.test.id in unk_names:
             pr = [s for s in st.body if isinstance(s, ast.Expr) and isinstance(s.value, ast.Call) and dotted(s.value.func) == "print"]
             if len(pr) == 1 and any(k.arg == "file" and norm(k.value) == "sys.stderr" for k in pr[0].value.keywords) and norm(st.body[-1]) == "return 1":
                 rep.ok({"unknown_arguments": "one stderr line, return 1"})
